@@ -2,6 +2,7 @@ import NetVerif.Model.QuicStream
 import NetVerif.Model.QuicMonitor
 import NetVerif.Gen.C20
 import NetVerif.Proofs.Lemmas.QuicMonitor
+import NetVerif.Proofs.Lemmas.QuicSendPath
 /-!
 C20 — QUIC never sends stream data beyond the peer's flow-control limits; advertised
 limits never decrease; a peer exceeding them gets FLOW_CONTROL_ERROR.
@@ -283,21 +284,273 @@ theorem send_iteration_conn (oused omax ms off size n : Int) (hinv : oused ≤ o
   have := charge_spec oused omax ms (off + n) hinv (by omega)
   exact ⟨this.1, this.2.1⟩
 
-/-- The full statement for all histories (every stream, every interleaving of flush / MAX_* / send /
-ack / loss): `used ≤ max`, `used = Σ outmaxsent`, `outmaxsent ≤ outwin`.  It needs the range-set
-invariants "every unsent range starts at or below `outmaxsent` and ends at or below
-`min(outflushed, outwin)`" carried through `rangeset.add/sub`; here it is established per iteration
-(`send_iteration_conn`, `clampSize_within`, `charge_spec`) and checked on the real structs after every
-operation by the harness oracle (`oracleState`). -/
-def SendPathStatement : Prop :=
-  ∀ (fuel : Nat) (c : Conn) (s : Stream) (w : Writer) (pn : Int) (pto : Bool),
-    c.oused ≤ c.omax → s.outmaxsent ≤ s.outwin →
-    (∀ r ∈ s.outunsent, r.s ≤ s.outmaxsent ∧ r.s ≤ r.e ∧ r.e ≤ imin s.outflushed s.outwin) →
-    imin s.out.start s.outwin ≤ s.outmaxsent → s.outflushed ≥ 0 →
-    (∀ r ∈ s.outacked, r.s ≤ r.e ∧ r.e ≤ imin s.outflushed s.outwin) → s.out.start ≤ s.outflushed →
-    let r := outLoop fuel c s w pn pto
-    r.1.oused ≤ r.1.omax ∧ r.2.1.outmaxsent ≤ r.2.1.outwin ∧
-      r.1.oused - c.oused = r.2.1.outmaxsent - s.outmaxsent
+/-! ### the send path for all histories -/
+section SendPath
+open NetVerif.Proofs.Lemmas.QuicSendPath NetVerif.Proofs.Lemmas.RangesetBounds
+
+/-- per-stream invariant: within the peer's stream limit, and (unless reset) the byte bookkeeping `SInv`:
+`outmaxsent ≤ min(outflushed, outwin)`, every unsent range lies inside that prefix, every never-sent
+permitted byte is unsent, every acked range lies below `outmaxsent`, the buffer starts at or below it. -/
+def SOK (s : Stream) : Prop := s.outmaxsent ≤ s.outwin ∧ (s.outreset.isSet = true ∨ SInv s)
+
+theorem sok_of_keeps {s t : Stream} (hs : SOK s) (hk : SInv s → Keeps s t) (hf : Frm s t) :
+    SOK t ∧ t.outmaxsent = s.outmaxsent := by
+  refine ⟨⟨by rw [hf.1]; exact Int.le_trans hs.1 hf.2.1, ?_⟩, hf.1⟩
+  rcases hs.2 with h | h
+  · left; rw [hf.2.2]; exact h
+  · right; exact (hk h).inv
+
+/-- a freshly created stream (nothing written, nothing sent) satisfies the invariant -/
+theorem fresh_SOK (s : Stream) (h0 : s.outmaxsent = 0) (h1 : s.outflushed = 0) (h2 : s.outunsent = [])
+    (h3 : s.outacked = []) (h4 : s.out = Pipe.empty) (hw : 0 ≤ s.outwin) : SOK s := by
+  refine ⟨by omega, Or.inr ⟨?_, ?_, ?_, ?_, ?_, ?_, ?_⟩⟩
+  · unfold lim QuicStream.imin; rw [h0, h1]; split <;> omega
+  · rw [h2]; exact allRP_nil _ _
+  · rw [h2]; exact ⟨0, trivial⟩
+  · intro x hx hxl; unfold lim QuicStream.imin at hxl; rw [h1] at hxl; rw [h0] at hx; split at hxl <;> omega
+  · rw [h3]; exact allRP_nil _ _
+  · rw [h4, h0]; decide
+  · rw [h4, h1]; decide
+
+/-- **`appendOutFramesLocked`, any state**: connection credit is respected and charged exactly for the
+growth of `outmaxsent`; every STREAM record it adds lies within `outmaxsent ≤ outwin`. -/
+theorem appendOutFrames_post (c : Conn) (s : Stream) (w : Writer) (pn : Int) (pto : Bool)
+    (hc : c.oused ≤ c.omax) (hs : SOK s) :
+    let r := appendOutFrames c s w pn pto
+    r.1.omax = c.omax ∧ r.1.oused ≤ r.1.omax ∧ SOK r.2.1 ∧
+      r.1.oused - c.oused = r.2.1.outmaxsent - s.outmaxsent ∧ s.outmaxsent ≤ r.2.1.outmaxsent ∧
+      ∀ x ∈ r.2.2.1.recs, x ∈ w.recs ∨ (∀ i a e f, x ≠ Rec.stream i a e f) ∨
+        ∃ a e f, x = Rec.stream s.id a e f ∧ a ≤ e ∧ e ≤ r.2.1.outmaxsent ∧ e ≤ r.2.1.outwin := by
+  unfold appendOutFrames
+  have hfo : ∀ t : Stream, (frameOpensStream t pn).outmaxsent = t.outmaxsent ∧
+      (frameOpensStream t pn).outwin = t.outwin ∧ (frameOpensStream t pn).outreset = t.outreset := by
+    intro t; unfold frameOpensStream; split <;> simp
+  by_cases hr : s.outreset.isSet = true
+  · simp only [hr, if_true]
+    cases h1 : s.outreset.shouldSendPTO pto
+    · simp only [Bool.false_eq_true, if_false]
+      exact ⟨by first | rfl | trivial, hc, hs, by omega, Int.le_refl _, fun x hx => Or.inl hx⟩
+    · simp only [if_true]
+      by_cases h2 : w.avail < 1 + szv s.id + szv s.outresetcode + szv s.outmaxsent
+      · simp only [Writer.resetStream, h2, if_true]
+        exact ⟨by first | rfl | trivial, hc, hs, by omega, Int.le_refl _, fun x hx => Or.inl hx⟩
+      · simp only [Writer.resetStream, h2, if_false]
+        refine ⟨by first | rfl | trivial, hc, ⟨by rw [(hfo _).1, (hfo _).2.1]; exact hs.1, Or.inl (by rw [(hfo _).2.2]; simp [SV.isSet])⟩,
+          by rw [(hfo _).1]; simp, by rw [(hfo _).1]; exact Int.le_refl _, ?_⟩
+        intro x hx
+        simp only [Writer.put, List.mem_append, List.mem_singleton] at hx
+        rcases hx with hx | hx
+        · exact Or.inl hx
+        · right; left; intro i a e f; rw [hx]; simp
+  · have hinv : SInv s := by rcases hs.2 with h | h; exact absurd h hr; exact h
+    simp only [hr]
+    -- the STREAM_DATA_BLOCKED part does not touch the send bookkeeping
+    have key : ∀ (s1 : Stream) (w1 : Writer), SameSend s s1 → s1.id = s.id →
+        (∀ x ∈ w1.recs, x ∈ w.recs ∨ ∀ i a e f, x ≠ Rec.stream i a e f) →
+        let r := outLoop (s1.outunsent.length + 3) c s1 w1 pn pto
+        r.1.omax = c.omax ∧ r.1.oused ≤ r.1.omax ∧ SOK r.2.1 ∧
+          r.1.oused - c.oused = r.2.1.outmaxsent - s.outmaxsent ∧ s.outmaxsent ≤ r.2.1.outmaxsent ∧
+          ∀ x ∈ r.2.2.1.recs, x ∈ w.recs ∨ (∀ i a e f, x ≠ Rec.stream i a e f) ∨
+            ∃ a e f, x = Rec.stream s.id a e f ∧ a ≤ e ∧ e ≤ r.2.1.outmaxsent ∧ e ≤ r.2.1.outwin := by
+      intro s1 w1 hsame hid hw1
+      have hp := outLoop_post (s1.outunsent.length + 3) c s1 w1 pn pto hc (SInv_same hinv hsame)
+      have hle : (outLoop (s1.outunsent.length + 3) c s1 w1 pn pto).2.1.outmaxsent ≤
+          (outLoop (s1.outunsent.length + 3) c s1 w1 pn pto).2.1.outwin :=
+        Int.le_trans hp.inv.bound (imin_le_right _ _)
+      refine ⟨hp.omax, hp.used, ⟨hle, Or.inr hp.inv⟩, by rw [← hsame.ms]; exact hp.charged,
+        by rw [← hsame.ms]; exact hp.mono, ?_⟩
+      intro x hx
+      rcases hp.recs x hx with h | ⟨a, e, f, h1, h2, h3⟩
+      · rcases hw1 x h with h | h
+        · exact Or.inl h
+        · exact Or.inr (Or.inl h)
+      · exact Or.inr (Or.inr ⟨a, e, f, by rw [h1, hid], h2, h3, Int.le_trans h3 hle⟩)
+    simp only [Bool.false_eq_true, if_false]
+    cases hb : s.outblocked.shouldSendPTO pto
+    · simp only [Bool.false_eq_true, if_false]
+      exact key s w ⟨rfl, rfl, rfl, rfl, rfl, rfl, rfl, Int.le_refl _⟩ rfl (fun x hx => Or.inl hx)
+    · simp only [if_true]
+      by_cases h2 : w.avail < 1 + szv s.id + szv s.outwin
+      · simp only [Writer.dataBlocked, h2, if_true]
+        exact ⟨by first | rfl | trivial, hc, hs, by omega, Int.le_refl _, fun x hx => Or.inl hx⟩
+      · simp only [Writer.dataBlocked, h2, if_false]
+        apply key
+        · unfold frameOpensStream; split <;> exact ⟨rfl, rfl, rfl, rfl, rfl, rfl, rfl, Int.le_refl _⟩
+        · unfold frameOpensStream; split <;> rfl
+        · intro x hx
+          simp only [Writer.put, List.mem_append, List.mem_singleton] at hx
+          rcases hx with hx | hx
+          · exact Or.inl hx
+          · right; intro i a e f; rw [hx]; simp
+
+/-! #### connection level: a list of streams sharing one `connOutflow` -/
+
+structure CS where
+  c : Conn
+  ss : List Stream
+
+/-- the send-side alphabet of the sm rig (streams addressed by position) -/
+inductive Op where
+  | write (i : Nat) (b : List Nat)
+  | flush (i : Nat)
+  | closeWrite (i : Nat)
+  | reset (i : Nat) (code : Int) (user : Bool)          -- Stream.Reset / STOP_SENDING
+  | maxData (v : Int)                                    -- peer MAX_DATA, any value (stale, duplicate, ...)
+  | maxStreamData (i : Nat) (v : Int)                    -- peer MAX_STREAM_DATA, any value
+  | send (i : Nat) (avail pn : Int) (pto : Bool)         -- appendOutFramesLocked into a packet with `avail` bytes left
+  | fate (i : Nat) (pn st en : Int) (fin acked : Bool)   -- ack / loss of a STREAM frame record
+
+def upd (cs : CS) (i : Nat) (f : Stream → Stream) : CS :=
+  match cs.ss[i]? with
+  | some s => { cs with ss := cs.ss.set i (f s) }
+  | none => cs
+
+def step (cs : CS) : Op → CS
+  | .write i b => upd cs i fun s => (write s b).1
+  | .flush i => upd cs i fun s => (flush s).1
+  | .closeWrite i => upd cs i closeWrite
+  | .reset i code u => upd cs i fun s => resetInternal s code u
+  | .maxData v => { cs with c := { cs.c with omax := setMaxData cs.c.omax v } }
+  | .maxStreamData i v => upd cs i fun s => handleMaxStreamData s v
+  | .send i av pn pto =>
+    match cs.ss[i]? with
+    | some s =>
+      let r := appendOutFrames cs.c s { avail := av } pn pto
+      { c := r.1, ss := cs.ss.set i r.2.1 }
+    | none => cs
+  | .fate i pn st en fin acked =>
+    -- only frames that were really sent have a fate: `st ≤ en ≤ outmaxsent` (see `appendOutFrames_post`:
+    -- every record emitted satisfies it, and `outmaxsent` never decreases)
+    upd cs i fun s => if st ≤ en ∧ en ≤ s.outmaxsent then ackOrLossData s pn st en fin acked else s
+
+def sumSent (l : List Stream) : Int := (l.map (·.outmaxsent)).sum
+
+/-- **the C20 send-side invariant** -/
+def CInv (cs : CS) : Prop :=
+  cs.c.oused ≤ cs.c.omax ∧ cs.c.oused = sumSent cs.ss ∧ ∀ s ∈ cs.ss, SOK s
+
+theorem sumSent_set (l : List Stream) : ∀ (i : Nat) (s t : Stream), l[i]? = some s →
+    sumSent (l.set i t) = sumSent l - s.outmaxsent + t.outmaxsent := by
+  induction l with
+  | nil => intro i s t h; simp at h
+  | cons a rest ih =>
+    intro i s t h
+    cases i with
+    | zero =>
+      simp at h; subst h
+      simp [sumSent]; omega
+    | succ k =>
+      simp at h
+      have := ih k s t h
+      simp [sumSent] at this ⊢
+      omega
+
+theorem upd_inv (cs : CS) (i : Nat) (f : Stream → Stream) (h : CInv cs)
+    (hf : ∀ s, SOK s → SOK (f s) ∧ (f s).outmaxsent = s.outmaxsent) : CInv (upd cs i f) := by
+  unfold upd
+  cases hi : cs.ss[i]? with
+  | none => exact h
+  | some s =>
+    simp only []
+    have hs : s ∈ cs.ss := List.mem_of_getElem? hi
+    have hfs := hf s (h.2.2 s hs)
+    refine ⟨h.1, ?_, ?_⟩
+    · show cs.c.oused = sumSent (cs.ss.set i (f s))
+      rw [sumSent_set cs.ss i s (f s) hi, hfs.2, h.2.1]; omega
+    · intro t ht
+      rcases List.mem_or_eq_of_mem_set ht with ht | ht
+      · exact h.2.2 t ht
+      · rw [ht]; exact hfs.1
+
+theorem step_inv (cs : CS) (op : Op) (h : CInv cs) : CInv (step cs op) := by
+  cases op with
+  | write i b => exact upd_inv cs i _ h fun s hs => sok_of_keeps hs (write_keeps s b) (frm_write s b)
+  | flush i => exact upd_inv cs i _ h fun s hs => sok_of_keeps hs (flush_keeps s) (frm_flush s)
+  | closeWrite i => exact upd_inv cs i _ h fun s hs => sok_of_keeps hs (closeWrite_keeps s) (frm_closeWrite s)
+  | reset i code u =>
+    refine upd_inv cs i _ h fun s hs => ?_
+    have hr := resetInternal_frm s code u
+    refine ⟨⟨by rw [hr.1, hr.2.1]; exact hs.1, ?_⟩, hr.1⟩
+    rcases hr.2.2 with h1 | h1
+    · exact Or.inl h1
+    · rw [h1]; exact hs.2
+  | maxData v =>
+    refine ⟨?_, h.2.1, h.2.2⟩
+    show cs.c.oused ≤ setMaxData cs.c.omax v
+    have := (setMaxData_max cs.c.omax v).1; have := h.1; omega
+  | maxStreamData i v =>
+    refine upd_inv cs i _ h fun s hs => sok_of_keeps hs (fun hi => ?_) (frm_handleMaxStreamData s v)
+    have := handleMaxStreamData_inv s v hi
+    exact ⟨this.1, this.2.1, this.2.2.1, this.2.2.2⟩
+  | send i av pn pto =>
+    simp only [step]
+    split
+    · rename_i s hi
+      have hs : s ∈ cs.ss := List.mem_of_getElem? hi
+      have hp := appendOutFrames_post cs.c s { avail := av } pn pto h.1 (h.2.2 s hs)
+      simp only [] at hp
+      refine ⟨hp.2.1, ?_, ?_⟩
+      · show (appendOutFrames cs.c s { avail := av } pn pto).1.oused = sumSent (cs.ss.set i _)
+        rw [sumSent_set cs.ss i s _ hi]
+        have := hp.2.2.2.1; have := h.2.1; omega
+      · intro t ht
+        rcases List.mem_or_eq_of_mem_set ht with ht | ht
+        · exact h.2.2 t ht
+        · rw [ht]; exact hp.2.2.1
+    · exact h
+  | fate i pn st en fin acked =>
+    refine upd_inv cs i _ h fun s hs => ?_
+    by_cases hg : st ≤ en ∧ en ≤ s.outmaxsent
+    · simp only [hg, and_self, if_true]
+      refine sok_of_keeps hs (fun hi => ?_) (frm_ackOrLossData s pn st en fin acked)
+      have := ackOrLossData_inv s pn st en fin acked hi hg.1 hg.2
+      exact ⟨this.1, this.2.1, by rw [this.2.2.1]; exact Int.le_refl _, this.2.2.2⟩
+    · simp only [hg, if_false]; exact ⟨hs, by first | rfl | trivial⟩
+
+/-- **C20, send side, all histories.**  For every sequence of writes, flushes, closes, resets,
+MAX_DATA / MAX_STREAM_DATA updates in any order (stale and duplicate ones included), packet builds of any
+capacity (PTO probes included) and acks / losses of frames that were sent, on any number of streams:
+`used ≤ max` at connection level, `used = Σ outmaxsent`, and per stream `outmaxsent ≤ outwin` together
+with the byte bookkeeping that makes the next step safe. -/
+theorem send_path_holds (ops : List Op) : ∀ cs : CS, CInv cs → CInv (ops.foldl step cs) := by
+  induction ops with
+  | nil => intro cs h; exact h
+  | cons op rest ih => intro cs h; exact ih _ (step_inv cs op h)
+
+/-- … hence, in every reachable state, no stream has sent beyond the peer's stream limit and the sum of
+the highest offsets sent is within the peer's connection limit … -/
+theorem send_path_limits (ops : List Op) (cs : CS) (h : CInv cs) :
+    sumSent (ops.foldl step cs).ss ≤ (ops.foldl step cs).c.omax ∧
+    ∀ s ∈ (ops.foldl step cs).ss, s.outmaxsent ≤ s.outwin := by
+  have := send_path_holds ops cs h
+  exact ⟨by rw [← this.2.1]; exact this.1, fun s hs => (this.2.2 s hs).1⟩
+
+/-- … and every STREAM frame the next packet build puts on the wire ends within both limits. -/
+theorem send_path_frames (ops : List Op) (cs : CS) (h : CInv cs) (i : Nat) (s : Stream)
+    (hi : (ops.foldl step cs).ss[i]? = some s) (av pn : Int) (pto : Bool) :
+    let r := appendOutFrames (ops.foldl step cs).c s { avail := av } pn pto
+    ∀ id a e f, Rec.stream id a e f ∈ r.2.2.1.recs → a ≤ e ∧ e ≤ r.2.1.outwin ∧ r.1.oused ≤ r.1.omax := by
+  have hinv := send_path_holds ops cs h
+  have hs : s ∈ (ops.foldl step cs).ss := List.mem_of_getElem? hi
+  have hp := appendOutFrames_post (ops.foldl step cs).c s { avail := av } pn pto hinv.1 (hinv.2.2 s hs)
+  intro r id a e f hm
+  rcases hp.2.2.2.2.2 _ hm with h1 | h1 | ⟨a', e', f', h1, h2, h3, h4⟩
+  · simp at h1
+  · exact absurd rfl (h1 id a e f)
+  · simp only [Rec.stream.injEq] at h1
+    obtain ⟨_, rfl, rfl, _⟩ := h1
+    exact ⟨h2, h4, hp.2.1⟩
+
+/-- non-vacuity: a connection with two fresh streams satisfies the invariant -/
+example : CInv ⟨{ maxConnRead := 100, sentLimit := 100, newLimit := 100, omax := 50 },
+    [{ id := 0, readOnly := false, writeOnly := false, inwin := 10, inmaxbuf := 10, outwin := 20, outmaxbuf := 30 },
+     { id := 4, readOnly := false, writeOnly := false, inwin := 10, inmaxbuf := 10, outwin := 5, outmaxbuf := 30 }]⟩ := by
+  refine ⟨by decide, by decide, ?_⟩
+  intro s hs
+  simp at hs
+  rcases hs with rfl | rfl <;> exact fresh_SOK _ rfl rfl rfl rfl rfl (by decide)
+
+end SendPath
 
 /-! ### monitor -/
 open NetVerif.Model.QuicMonitor in
